@@ -101,7 +101,10 @@ def main():
             why = ""
             mm = re.search(r"failure: (\[[^\]]*\])", r.stderr)
             if mm: why = mm.group(1)
-            row[pid] = {0: "silent", 1: "DETECTED", 2: "undecided"}.get(r.returncode, str(r.returncode)) + f" ({ev} cases, {dt:.1f}s) {why}"
+            fw = ""
+            mm = re.search(r"failing workers: (\d+) of (\d+)", r.stderr)
+            if mm: fw = f", {mm.group(1)}/{mm.group(2)} workers"
+            row[pid] = {0: "silent", 1: "DETECTED", 2: "undecided"}.get(r.returncode, str(r.returncode)) + f" ({ev} cases{fw}, {dt:.1f}s) {why}"
         exp = "expected: " + (",".join(mut['props']) if mut['props'] else "no alarm (control)")
         print(f"{mut['name']}: {row}  [{exp}]", flush=True)
         results.append((mut['name'], 'ran', row))
